@@ -1155,7 +1155,8 @@ func commitLock(batch *leveldb.Batch, lock mvccLock, key []byte, startTS, commit
 	switch lock.op {
 	case kvrpcpb.Op_Put:
 		valueType = typePut
-	case kvrpcpb.Op_Lock:
+	case kvrpcpb.Op_Lock, kvrpcpb.Op_PessimisticLock:
+		// A leftover pessimistic lock is committed as a Lock record, as in TiKV: it changes no data.
 		valueType = typeLock
 	default:
 		valueType = typeDelete
